@@ -151,6 +151,18 @@ CHECKS = {
              'executable predicates and excluded so that the search continues behind them. Bounded exploration.',
         note='trusted base: kopfsim/rfc.py merge, the model in props/c16.py, the qualified-name regexes taken from the Kubernetes docs',
         design_ref='5/C16'),
+    'C17': dict(
+        technique='model-based property testing: Hypothesis-generated closed-loop histories over two resource kinds (creations before '
+                  'and after the start, edits of per-object index-result plans with colliding keys, label toggles, deletions, '
+                  're-creations, slow listings, slow index functions, stream breaks, restarts); oracle = a dictionary reference model '
+                  'written from docs/indexing.rst, folded over the observed indexing passes and compared with every index snapshot any '
+                  'handler was given; plus a start-up gate invariant against the initial listings',
+        text='Every snapshot of every index seen by any handler equals the documented content for the passes made so far (latest '
+             'results of matching live objects; removal on deletion, filter mismatch, temporary/permanent error, with exclusion '
+             'for the delay / forever; retention on None and on ignored errors); index functions are (not) invoked exactly when '
+             'documented; no change handler, timer or daemon starts before every indexed kind was listed and each listed object '
+             'went through an indexing pass. Bounded exploration.',
+        design_ref='5/C17'),
     'C18': dict(
         engine='pure',
         technique='property-based testing: Hypothesis-generated admission reviews and handler sets through '
